@@ -63,7 +63,7 @@ func main() {
 		out.Emit(line, r)
 		out.Case(line, nontrivial)
 		kind := strings.Fields(line)[0]
-		if kind == "vb" || kind == "vt" || kind == "sig" || kind == "vc" {
+		if kind == "vb" || kind == "vt" || kind == "sig" || kind == "vc" || kind == "sx" {
 			out.Count(kind + ":" + r)
 		} else {
 			out.Count(kind)
